@@ -49,6 +49,38 @@ theorem rateOfInterval_near_rateHz (u : TimeUnit) (a : Axis) (h : 0 < a.dt) :
 example : rateHz { t0 := 5, dt := 813270000, n := 64, unit := .ms } = 100000000 / 81327 := by
   simp only [rateHz]; norm_num
 
+/-! ### what reaches the algorithm layer as sampling rate (GENERATED `FsBinding` sites) -/
+
+/-- **fs_delivered_is_rateHz**: at a site fed from the input's rate (no caller override) the algorithm
+receives the series' stored rate, which for a series whose rate the constructor computed from its interval is
+within 12·2⁻⁵³ relative of `rateHz` = 10¹²/Δ_ps — a quantity in which the time unit does not occur -/
+theorem fs_delivered_is_rateHz (b : FsSrc) (hb : b ≠ .other) (src : Series)
+    (hfs : src.fs = rateOfInterval src.ax.unit src.ax.dt) (h0 : 0 < src.ax.dt) :
+    ∃ fs, fsDelivered b src none = some fs ∧ fs = src.fs ∧
+      |fs - rateHz src.ax| ≤ 12 * (1 / 2 ^ 53) * |rateHz src.ax| ∧
+      ∀ u, rateHz { src.ax with unit := u } = rateHz src.ax := by
+  refine ⟨src.fs, ?_, rfl, ?_, fun _ => rfl⟩
+  · cases b <;> simp_all [fsDelivered]
+  · rw [hfs]; exact rateOfInterval_near_rateHz _ _ h0
+
+/-- a caller-supplied `method['Fs']` is honoured exactly where the code documents the override, and nowhere else -/
+theorem fs_user_override (src : Series) (f : Rat) :
+    fsDelivered .userOrInput src (some f) = some f ∧ fsDelivered .inputRate src (some f) = some src.fs := ⟨rfl, rfl⟩
+
+/-- a site whose rate does not come from the input delivers nothing the theorem can vouch for -/
+theorem fs_other_not_vouched (src : Series) (user : Option Rat) : fsDelivered .other src user = none := rfl
+
+/-- **every generated Fs site takes its rate from the input series** (46 sites today: keyword `Fs=` /
+`sampling_rate=` of algorithm calls, method-dict entries and stores, `get_freqs` arguments, arithmetic uses);
+a getter that recomputes the rate any other way (e.g. from the interval in its display unit) fails this -/
+theorem fs_sites_all_from_input :
+    ∀ b ∈ Nitime.Generated.FsBindings.all, b.src ≠ .other := by decide
+
+/-- the sites exist (non-vacuity) and the direct-rate ones outnumber the overridable ones -/
+theorem fs_sites_nonempty :
+    0 < (Nitime.Generated.FsBindings.all.filter (fun b => b.src = .inputRate)).length ∧
+    0 < (Nitime.Generated.FsBindings.all.filter (fun b => b.src = .userOrInput)).length := by decide
+
 /-! ### shapes of construction sites -/
 
 /-- forwards the interval (exact), the start and the unit -/
@@ -72,16 +104,41 @@ theorem forwarded_by_rate_axis_eq_input (src : Series) (p : Params) :
   simp [outputAxis, outputSeries, byRate, argInterval, argRate, argT0, argUnit, mkSeries, Except.map, bind,
     Except.bind]
 
-/-- the rate path returns the interval it was computed from on the intervals that used to come back
-one picosecond short while `to_period` truncated (non-vacuity of the `byRate` hypothesis; the general
-round-trip statement for all intervals below 2^49 ps is NOT proved — it is checked per run) -/
+/-- **rate → interval round trip, general**: for EVERY unit and every whole interval 0 < Δ < 2⁴⁹ ps
+(≈ 9.4 minutes) the interval the constructor re-derives from the rate it stored for Δ is Δ again:
+`TimeArray(Frequency(rate_of(Δ)).to_period() / c_f, unit) = Δ` (eight roundings, two `rint`s; bridge over
+C02's `hz_core`, `period_core`, `rne_chain3` in `Lemmas/C15Rate.lean`) -/
+theorem rate_roundtrip (u : TimeUnit) (ps : Int) (h0 : 0 < ps) (hlt : ps < 2 ^ 49) :
+    quantise u (rateOfInterval u ps) = ps := by
+  rw [C15.Lemmas.quantise_rateOfInterval]
+  exact C15.Lemmas.roundTrip_eq (cf u) ps (C15.Lemmas.cf_pos u) h0 hlt
+
+/-- hence a rate-forwarding site returns the input's axis for every input whose stored rate is the one
+the constructor computed for its interval (interval given as a time object, or as the decimal number
+nearest to Δ/c_f), 0 < Δ < 2⁴⁹ ps — no example restriction; applies again to outputs fed into further
+rate-forwarding sites, because rate, interval and unit are unchanged -/
+theorem forwarded_by_rate_axis_eq_input_general (src : Series) (p : Params)
+    (hfs : src.fs = rateOfInterval src.ax.unit src.ax.dt) (h0 : 0 < src.ax.dt) (hlt : src.ax.dt < 2 ^ 49) :
+    outputAxis byRate src p src.ax.n = .ok src.ax ∧
+    (outputSeries byRate src p src.ax.n).map (·.fs) = .ok src.fs := by
+  refine ⟨(forwarded_by_rate_axis_eq_input src p).mpr (by rw [hfs]; exact rate_roundtrip _ _ h0 hlt), ?_⟩
+  obtain ⟨⟨t0, dt, n, u⟩, fs⟩ := src
+  simp [outputSeries, byRate, argInterval, argRate, argT0, argUnit, mkSeries, Except.map, bind, Except.bind]
+
+/-- instances on the intervals that came back one picosecond short while `to_period` truncated -/
 theorem rate_roundtrip_examples :
     quantise .s (rateOfInterval .s 813270000000) = 813270000000 ∧
     quantise .ms (rateOfInterval .ms 2300000000) = 2300000000 ∧
-    quantise .us (rateOfInterval .us 1700000) = 1700000 ∧
-    quantise .s (rateOfInterval .ms 2300000000) = 2300000000 ∧
-    quantise .s (rateOfInterval .s (2 * 10 ^ 12)) = 2 * 10 ^ 12 := by
-  refine ⟨?_, ?_, ?_, ?_, ?_⟩ <;> decide +kernel
+    quantise .us (rateOfInterval .us 1700000) = 1700000 :=
+  ⟨rate_roundtrip _ _ (by norm_num) (by norm_num), rate_roundtrip _ _ (by norm_num) (by norm_num),
+   rate_roundtrip _ _ (by norm_num) (by norm_num)⟩
+
+/-- the bound 2⁴⁹ is about the float chain, not an artefact: NOT proved beyond it (`_partial` gap: intervals
+≥ 2⁴⁹ ps ≈ 563 s, and a rate forwarded WITHOUT the unit from a series whose unit is not seconds, where the
+re-derivation runs with the factor of 's' while the rate was computed with the series' factor — there the
+statement is checked per run only; one instance: -/
+theorem rate_roundtrip_cross_unit_partial :
+    quantise .s (rateOfInterval .ms 2300000000) = 2300000000 := by decide +kernel
 
 /-- with the truncating `to_period` (before f90f922) a 0.81327 s interval came back as 813269999999 ps -/
 theorem rate_roundtrip_trunc_counterexample :
@@ -228,45 +285,37 @@ theorem sites_enumerated :
 def Faithful (sh : Shape) : Prop := sh = exact ∨ sh = byRate
 instance (sh : Shape) : Decidable (Faithful sh) := by unfold Faithful; infer_instance
 
-/-- recorded defective shapes (C15 findings): rate only; rate + unit; rate + t0 -/
-def rateOnly : Shape := ⟨.absent, .field .rate, .absent, .absent⟩
-def rateUnit : Shape := ⟨.absent, .field .rate, .absent, .field .unit⟩
-def rateT0 : Shape := ⟨.absent, .field .rate, .field .t0, .absent⟩
-
-/-- FilterAnalyzer: `filtfilt` (→ `iir`), `filtered_fourier`, `filtered_boxcar` forward rate, t0, unit -/
+/-- FilterAnalyzer: `filtfilt` (→ `iir`), the intermediate series of `fir`, `filtered_fourier`,
+`filtered_boxcar` all forward rate, t0, unit (fir's unit since repo 82d8cdf) -/
 theorem site_filter_forwarding :
     Faithful FilterAnalyzer_filtfilt_0.shape ∧ Faithful FilterAnalyzer_filtered_fourier_0.shape ∧
-    Faithful FilterAnalyzer_filtered_boxcar_0.shape := by decide
+    Faithful FilterAnalyzer_filtered_boxcar_0.shape ∧ Faithful FilterAnalyzer_fir_0.shape := by decide
 
-/-- FilterAnalyzer.fir: the intermediate series is faithful, or (today) drops the unit -/
-theorem site_filter_fir : Faithful FilterAnalyzer_fir_0.shape ∨ FilterAnalyzer_fir_0.shape = rateT0 := by decide
-
-/-- NormalizationAnalyzer: faithful, or (today) t0 dropped -/
+/-- NormalizationAnalyzer: both outputs faithful (t0 since repo a2d69d0) -/
 theorem site_normalization :
-    (Faithful NormalizationAnalyzer_percent_change_0.shape ∨ NormalizationAnalyzer_percent_change_0.shape = rateUnit) ∧
-    (Faithful NormalizationAnalyzer_z_score_0.shape ∨ NormalizationAnalyzer_z_score_0.shape = rateUnit) := by decide
-
-/-- HilbertAnalyzer: faithful, or (today) t0 and unit dropped, on all five outputs -/
-theorem site_hilbert :
-    ∀ c ∈ [HilbertAnalyzer_analytic_0, HilbertAnalyzer_amplitude_0, HilbertAnalyzer_phase_0,
-           HilbertAnalyzer_real_0, HilbertAnalyzer_imag_0], Faithful c.shape ∨ c.shape = rateOnly := by decide
-
-/-- MorletWaveletAnalyzer: faithful, or (today) t0 and unit dropped, on all five outputs -/
-theorem site_wavelet :
-    ∀ c ∈ [MorletWaveletAnalyzer_analytic_0, MorletWaveletAnalyzer_amplitude_0, MorletWaveletAnalyzer_phase_0,
-           MorletWaveletAnalyzer_real_0, MorletWaveletAnalyzer_imag_0], Faithful c.shape ∨ c.shape = rateOnly := by
+    Faithful NormalizationAnalyzer_percent_change_0.shape ∧ Faithful NormalizationAnalyzer_z_score_0.shape := by
   decide
 
-/-- SNR `signal_noise`: faithful, or (today) t0 and unit dropped -/
-theorem site_snr :
-    ∀ c ∈ [signal_noise_0, signal_noise_1], Faithful c.shape ∨ c.shape = rateOnly := by decide
+/-- HilbertAnalyzer: all five outputs faithful (repo 8e7c670) -/
+theorem site_hilbert :
+    ∀ c ∈ [HilbertAnalyzer_analytic_0, HilbertAnalyzer_amplitude_0, HilbertAnalyzer_phase_0,
+           HilbertAnalyzer_real_0, HilbertAnalyzer_imag_0], Faithful c.shape := by decide
 
-/-- CorrelationAnalyzer: a lag axis with the exact interval; labelled as intended (unit forwarded,
-−Δ·(n−1)) or as today (−Δ·n, unit dropped) -/
+/-- MorletWaveletAnalyzer: all five outputs faithful (repo 7445a9e) -/
+theorem site_wavelet :
+    ∀ c ∈ [MorletWaveletAnalyzer_analytic_0, MorletWaveletAnalyzer_amplitude_0, MorletWaveletAnalyzer_phase_0,
+           MorletWaveletAnalyzer_real_0, MorletWaveletAnalyzer_imag_0], Faithful c.shape := by
+  decide
+
+/-- SNR `signal_noise`: both series faithful (repo 6780c75) -/
+theorem site_snr :
+    ∀ c ∈ [signal_noise_0, signal_noise_1], Faithful c.shape := by decide
+
+/-- CorrelationAnalyzer: lag axis with the exact interval, zero lag at time zero (t0 = −Δ·(n−1), repo
+8b4ced3) and the input's unit (repo 875d565) -/
 theorem site_xcorr :
     ∀ c ∈ [CorrelationAnalyzer_xcorr_0, CorrelationAnalyzer_xcorr_norm_0],
-      c.shape = lagShape .nMinus1 (.field .unit) ∨ c.shape = lagShape .nMinus1 .absent ∨
-      c.shape = lagShape .n (.field .unit) ∨ c.shape = lagShape .n .absent := by decide
+      c.shape = lagShape .nMinus1 (.field .unit) := by decide
 
 /-- EventRelatedAnalyzer `et_data`, `eta`, `ets`: offset axes with the exact interval -/
 theorem site_event_related_eta :
